@@ -7,11 +7,19 @@
 // not get through before the reporting thread has left its guarded scope.
 // usage: lock_driver <out>
 #define RLBOX_USE_EXCEPTIONS
-#if defined(BK_NOOP)
+#if defined(BK_DYLIB)
+// the bundled dylib backend with a statically linked "guest" (static calls), like the no-op one;
+// argv[2] is a library to open (only a handle here)
+#  define BK_NOOP
+#  define harness_static_lookup(func_name) reinterpret_cast<void*>(&func_name)
+#  define RLBOX_USE_STATIC_CALLS() harness_static_lookup
+#elif defined(BK_NOOP)
 #  define RLBOX_USE_STATIC_CALLS() rlbox_noop_sandbox_lookup_symbol
 #endif
 #include "rlbox.hpp"
-#if defined(BK_NOOP)
+#if defined(BK_DYLIB)
+#  include "rlbox_dylib_sandbox.hpp"
+#elif defined(BK_NOOP)
 #  include "rlbox_noop_sandbox.hpp"
 #else
 #  include "vm_sandbox.hpp"
@@ -27,7 +35,9 @@
 #include <vector>
 
 using namespace rlbox;
-#if defined(BK_NOOP)
+#if defined(BK_DYLIB)
+using Sbx = rlbox_dylib_sandbox;
+#elif defined(BK_NOOP)
 using Sbx = rlbox_noop_sandbox;
 #else
 using Sbx = rlbox_vm_sandbox<vm_abi_wasm32, 12, true, 4>; // finder-based: lookups walk the list
@@ -35,6 +45,34 @@ using Sbx = rlbox_vm_sandbox<vm_abi_wasm32, 12, true, 4>; // finder-based: looku
 using RS = rlbox_sandbox<Sbx>;
 
 static tr::Out out;
+static const char* g_dylib_path = "";
+static void create(RS& s)
+{
+#if defined(BK_DYLIB)
+  s.create_sandbox(g_dylib_path);
+#else
+  s.create_sandbox();
+#endif
+}
+#if defined(BK_NOOP)
+// a "guest" function that calls back once, and the callback: it sees the sandbox it belongs to
+extern "C" int lock_guest_call(int (*cb)(int), int x) { return cb(x) + 1; }
+static thread_local const void* g_cb_saw = nullptr;
+static tainted<int, Sbx> lock_cb(RS& s, tainted<int, Sbx> x)
+{
+  g_cb_saw = &s;
+  return x + 100;
+}
+// one invocation with a callback; "ok" iff the result is right and the callback saw this sandbox
+static const char* invoke_once(RS& s)
+{
+  auto cb = s.register_callback(lock_cb);
+  g_cb_saw = nullptr;
+  int v = s.invoke_sandbox_function(lock_guest_call, cb, 7).UNSAFE_unverified();
+  cb.unregister();
+  return (v == 108 && g_cb_saw == &s) ? "ok" : "wrong";
+}
+#endif
 static std::string g_phase;
 static std::thread::id g_main;
 static std::vector<std::thread> g_helpers;
@@ -50,7 +88,7 @@ static bool helper_gets_through(int wait_ms)
   g_helpers.emplace_back([done] {
     try {
       RS tmp;
-      tmp.create_sandbox();
+      create(tmp);
       tmp.destroy_sandbox();
     } catch (...) {
     }
@@ -89,6 +127,9 @@ int main(int argc, char** argv)
   if (argc < 2 || !out.open(argv[1])) {
     return 2;
   }
+  if (argc > 2) {
+    g_dylib_path = argv[2];
+  }
   g_main = std::this_thread::get_id();
   // outside every operation nobody holds the lock: the helper must get through (otherwise the
   // probe could never tell anything on this machine: exit code 3, reported as broken machinery)
@@ -109,7 +150,7 @@ int main(int argc, char** argv)
     g_phase = "create";
     for (int i = 0; i < 3; i++) {
       sbs.push_back(std::make_unique<RS>());
-      sbs.back()->create_sandbox();
+      create(*sbs.back());
       join_helpers();
     }
     g_phase = "use";
@@ -142,13 +183,28 @@ int main(int argc, char** argv)
   // by OTHER threads, one thread per sandbox, while this thread keeps one for itself
   {
     std::vector<std::unique_ptr<RS>> pool;
+    std::vector<std::string> use(4, "-"), destroy(4, "-"), warm(4, "-");
     for (int i = 0; i < 4; i++) {
       pool.push_back(std::make_unique<RS>());
-      pool.back()->create_sandbox();
+      create(*pool.back());
+#if defined(BK_NOOP)
+      // ... after the creating thread has used each of them once (an invocation with a callback)
+      try {
+        warm[i] = invoke_once(*pool.back());
+      } catch (const std::runtime_error&) {
+        warm[i] = "abort";
+      }
+#endif
     }
-    std::vector<std::string> use(4, "-"), destroy(4, "-");
     auto work = [&](int i) {
       try {
+#if defined(BK_NOOP)
+        for (int k = 0; k < 3; k++) {
+          if (std::string(invoke_once(*pool[i])) != "ok") {
+            throw std::logic_error("wrong");
+          }
+        }
+#endif
         auto p = pool[i]->malloc_in_sandbox<int*>();
         auto q = pool[i]->malloc_in_sandbox<int>();
         *p = q;
@@ -157,6 +213,8 @@ int main(int argc, char** argv)
         pool[i]->free_in_sandbox(q);
         pool[i]->free_in_sandbox(p);
         use[i] = same ? "ok" : "wrong";
+      } catch (const std::logic_error&) {
+        use[i] = "wrong";
       } catch (const std::runtime_error&) {
         use[i] = "abort";
       }
@@ -177,7 +235,7 @@ int main(int argc, char** argv)
     }
     for (int i = 0; i < 4; i++) {
       tr::Ev e("handoff");
-      e.num("i", i).boolean("other_thread", i != 0).str("use", use[i]).str("destroy", destroy[i]);
+      e.num("i", i).boolean("other_thread", i != 0).str("warm", warm[i]).str("use", use[i]).str("destroy", destroy[i]);
       out.put(e);
     }
   }
